@@ -64,3 +64,25 @@ Theorem C03_table_helpers_are_source :
   (forall e s, Inv s -> run_method src_sc_remove_simplex_id [e] [] s = remove_edge1 e s).
 Proof. split; [exact sc_add_simplex_is_source|split; [exact sc_add_face_is_source|exact sc_remove_simplex_id_is_source]]. Qed.
 Print Assumptions C03_table_helpers_are_source.
+
+(* THE SOURCE TIE for add_simplex as a whole.  The guards of SimplicialComplex.add_simplex (None among the members; an empty or
+   already present simplex; an id already in use), the choice of the id (`next(self._edge_uid) if not idx else idx`: a falsy id counts
+   as not given), the calls of _add_simplex and update_uid_counter, and the loop `for members_sub in set(self._subfaces(members))`
+   with its own guard and the call of _add_face are regenerated from the source on every run; run under Model/PyIR.v on the faces in
+   the order in which the set yields them (each face in the order in which the frozenset yields its nodes: the hint), they are the
+   model's add_simplex - for every member list, id, attribute dict, state and hint.  What stays hand-modelled is _subfaces itself
+   (Model: subfaces; tied by C15's translator for xgi.utils.subfaces) and the iteration order of the sets (an input) *)
+Theorem C03_add_simplex_is_source : forall ms idx a hint s,
+  NoDup (snd hint) -> Forall (@NoDup lbl) (fst hint) -> has LNone (h_edge s) = false ->
+  run_add_simplex src_sc_add_simplex_guards src_sc_add_simplex_head src_sc_face_guards src_sc_face_item ms idx a
+                  (map (order_by (snd hint)) (order_faces (subfaces (mkset ms)) (fst hint))) s
+  = add_simplex ms idx a hint s.
+Proof. exact sc_add_simplex_full_is_source. Qed.
+Print Assumptions C03_add_simplex_is_source.
+
+(* the program does something: a triangle under a falsy id gets the automatic id 0 and its three edges the ids 1-3 *)
+Example C03_add_simplex_source_runs :
+  let r := run_add_simplex src_sc_add_simplex_guards src_sc_add_simplex_head src_sc_face_guards src_sc_face_item
+             [LInt 1; LInt 2; LInt 3] (Some (LInt 0)) [] (map (order_by []) (order_faces (subfaces (mkset [LInt 1; LInt 2; LInt 3])) [])) hg_empty in
+  keys (h_edge (st_of r)) = [LInt 0; LInt 1; LInt 2; LInt 3] /\ h_uid (st_of r) = 4%Z.
+Proof. vm_compute. split; reflexivity. Qed.
